@@ -490,53 +490,98 @@ func checkC14(w *World, r *Report) {
 		r.Check(ns && loop && last, "R14.4", "IgnoreNode", fd.Pos(), "not-supported ⇒ ignored; any false if-feature ⇒ ignored; else present", "node presence is no longer 'not deviated away and every if-feature enabled'")
 		ifv := w.Method("compile", "Compiler", "isFeatureValid")
 		ifd, _ := w.FuncDecl(ifv)
-		// inside the loop over if-feature children: enabled = <recursive call> && enabled (either order)
-		acc := false
-		var enabled types.Object
-		ast.Inspect(ifd.Body, func(x ast.Node) bool {
-			rs, ok := x.(*ast.RangeStmt)
-			if !ok {
-				return true
-			}
-			ast.Inspect(rs.Body, func(y ast.Node) bool {
-				as, ok := y.(*ast.AssignStmt)
-				if !ok || len(as.Lhs) != 1 || len(as.Rhs) != 1 {
-					return true
-				}
-				be, ok := ast.Unparen(as.Rhs[0]).(*ast.BinaryExpr)
-				if !ok || be.Op != token.LAND {
-					return true
-				}
-				lhs := objOfIdent(p, as.Lhs[0])
-				isRec := func(e ast.Expr) bool {
-					ce, ok := ast.Unparen(e).(*ast.CallExpr)
-					return ok && calleeOf(p, ce) == ifv
-				}
-				if (isRec(be.X) && objOfIdent(p, be.Y) == lhs) || (isRec(be.Y) && objOfIdent(p, be.X) == lhs) {
+		// the value carried round the loop over the if-feature children is, after
+		// each round, <recursive verdict> ∧ <value before>; it starts from the
+		// feature's own setting and is what the function returns
+		acc, retOK, ownOK := false, false, false
+		if vf := w.SSAFunc(ifv); vf != nil {
+			sym := NewSym(w)
+			sym.Expand = false
+			own := w.SSAFunc(w.Method("compile", "Compiler", "featureEnabled"))
+			for _, bl := range vf.Blocks {
+				for _, in := range bl.Instrs {
+					h, isPhi := in.(*ssa.Phi)
+					if !isPhi || !types.Identical(h.Type().Underlying(), types.Typ[types.Bool]) {
+						continue
+					}
+					var back, init []ssa.Value
+					for i, e := range h.Edges {
+						if bl.Dominates(bl.Preds[i]) {
+							back = append(back, e)
+						} else {
+							init = append(init, e)
+						}
+					}
+					if len(back) == 0 || len(init) == 0 {
+						continue
+					}
+					classify := func(a *pcAtom) string {
+						if a.v == ssa.Value(h) {
+							return "prev"
+						}
+						if c, ok := a.v.(*ssa.Call); ok && a.x == nil {
+							switch c.Call.StaticCallee() {
+							case vf:
+								return "rec"
+							case own:
+								return "own"
+							}
+						}
+						return ""
+					}
+					// over the ways round the loop: value carried on = went round ∧ rec ∧ prev
+					round, next := pcZ, pcZ
+					for i, e := range h.Edges {
+						if !bl.Dominates(bl.Preds[i]) {
+							continue
+						}
+						pc := pcAndF(sym.PathCond(bl, bl.Preds[i], nil), sym.edgeCond(bl.Preds[i], bl, nil))
+						round = pcOrF(round, pc)
+						next = pcOrF(next, pcAndF(pc, sym.Cond(e, nil)))
+					}
+					var recs []*ssa.Call
+					for _, lb := range vf.Blocks {
+						if !bl.Dominates(lb) {
+							continue
+						}
+						for _, lin := range lb.Instrs {
+							if c, ok := lin.(*ssa.Call); ok && c.Call.StaticCallee() == vf {
+								recs = append(recs, c)
+							}
+						}
+					}
+					okBack := len(recs) == 1
+					if okBack {
+						want := pcAndF(round, pcAndF(sym.Cond(recs[0], nil), sym.Cond(h, nil)))
+						same := pcOrF(pcAndF(next, want), pcAndF(pcNotF(next), pcNotF(want)))
+						okBack = pcCompare(same, func(*pcAtom) string { return "" }, func(map[string]bool) bool { return true }) == ""
+					}
+					okInit := true
+					for _, e := range init {
+						okInit = okInit && pcCompare(sym.Cond(e, nil), classify, func(env map[string]bool) bool { return env["own"] }) == ""
+					}
+					if !okBack {
+						continue
+					}
 					acc = true
-					enabled = lhs
+					ownOK = okInit
+					nH, others := 0, true
+					for _, rb := range vf.Blocks {
+						ret, isRet := rb.Instrs[len(rb.Instrs)-1].(*ssa.Return)
+						if !isRet || len(ret.Results) != 1 {
+							continue
+						}
+						rv := unspill(ret.Results[0])
+						if rv == ssa.Value(h) {
+							nH++
+						} else if k, isK := rv.(*ssa.Const); !isK || k.Value == nil || constant.BoolVal(k.Value) {
+							others = false
+						}
+					}
+					retOK = nH > 0 && others
 				}
-				return true
-			})
-			return true
-		})
-		// the accumulated variable is what is returned and recorded
-		retOK := false
-		for _, ret := range returnsIn(ifd.Body) {
-			if enabled != nil && objOfIdent(p, ret.Results[0]) == enabled {
-				retOK = true
 			}
 		}
-		// and it starts from the feature's own enablement
-		ownOK := false
-		ast.Inspect(ifd.Body, func(x ast.Node) bool {
-			if as, ok := x.(*ast.AssignStmt); ok && len(as.Lhs) == 1 && enabled != nil && objOfIdent(p, as.Lhs[0]) == enabled {
-				if ce, ok := as.Rhs[0].(*ast.CallExpr); ok && calleeOf(p, ce) == w.Method("compile", "Compiler", "featureEnabled") {
-					ownOK = true
-				}
-			}
-			return true
-		})
 		r.Check(acc && retOK && ownOK, "R14.4", "isFeatureValid conjunction", ifd.Pos(), "enabled = featureEnabled(self); for each dependency: enabled = valid(dep) && enabled; return enabled", "the enablement of a feature is not the conjunction of its own setting and of every feature it depends on (e.g. only the last dependency counts)")
 		cif := w.Method("compile", "Compiler", "CheckIfFeature")
 		cfd, _ := w.FuncDecl(cif)
